@@ -436,6 +436,7 @@ def build_dag(cfg):
     n = cfg["n"]
     fn = cfg.get("fn") or list(range(1, n + 1))
     setup = cfg.get("setup") or [False] * n
+    debug = cfg.get("debug") or [False] * n
     act = cfg.get("act") or [None] * n
     xs = {}
     for k in range(1, n + 1):
@@ -456,6 +457,7 @@ def build_dag(cfg):
             is_sequential=cfg["seq"][k - 1],
             resource=RES[cfg["res"][k - 1]],
             setup=setup[k - 1],
+            debug=debug[k - 1],
         )
     params = []
     lines = []
@@ -536,6 +538,8 @@ def run_history(cfg, script=(), max_subset=None, max_bg=None):
         import json as _json
         import tempfile
         conf = {"nodes": {ids[k]: {"priority": rc["prio"][k], "is_sequential": rc["seq"][k]} for k in range(cfg["n"]) if rc["named"][k]}}
+        if rc.get("mc"):
+            conf["max_concurrency"] = rc["mc"]
         if rc["via"] == "dict":
             d.config_from_dict(conf)
         else:
@@ -573,6 +577,7 @@ def run_history(cfg, script=(), max_subset=None, max_bg=None):
 
     wd = threading.Thread(target=watchdog, daemon=True)
     wd.start()
+    tawazi.cfg.RUN_DEBUG_NODES = bool(cfg.get("run_debug", False))
     try:
         for op in ops:
             ctl.reset_exec()
@@ -584,7 +589,7 @@ def run_history(cfg, script=(), max_subset=None, max_bg=None):
                 kw = {k2: [ids[j - 1] for j in sel[k1]] for k1, k2 in (("t", "target_nodes"), ("x", "exclude_nodes"), ("r", "root_nodes")) if sel.get(k1) is not None}
                 try:
                     target = d.executor(**kw)
-                except ValueError:
+                except Exception:  # noqa: BLE001  (selections and their caller errors are engine E3's subject)
                     ctl.log("op_skipped", k="exec")
                     continue
             ctl.log("op", k=opname)
@@ -618,6 +623,7 @@ def run_history(cfg, script=(), max_subset=None, max_bg=None):
     finally:
         done.set()
         _verif.sink = None
+        tawazi.cfg.RUN_DEBUG_NODES = False
         ctl.release_everything()
         signal.signal(signal.SIGUSR1, old)
     return {
